@@ -1,18 +1,29 @@
 /-
 C17 — consistent-hash lookups are stable; membership changes move a minimum of keys.
-Property theorems only. The ring model (Model/C17.lean) is generic in the member type `μ` and in the
-function `pts` that gives the replica points of a member, so every theorem below holds for an ARBITRARY hash
-function, collisions included; `h` is the hash of the key that is looked up. `run g pts ops` is the ring
-after the history `ops` of AddNode/RemoveNode calls starting from `New()`; `P.guarded` says that
-`RemoveNode` deletes a point only while the removed member owns it (regenerated from the source; `Valid`).
+Property theorems only. The ring model (Model/C17.lean) is generic in the member type `μ` and in a
+configuration `K : Cfg μ`: `K.pts` gives the replica points of a member — ANY function, so every theorem below
+holds for an arbitrary hash, collisions included — `K.ord` is the order in which `RemoveNode` visits the
+remaining members when it gives points back (`OrdOK K`: it enumerates exactly the member set), `K.guarded`
+says that `RemoveNode` deletes a point only while the removed member owns it, `K.restores` that it then puts
+every replica point a remaining member lacks back on the ring (both regenerated from the source; `Valid`).
+`run K ops` is the ring after the history `ops` of AddNode/RemoveNode calls starting from `New()`; `h` is
+the hash of the key that is looked up.
 -/
 import Fatchoy.Lemmas.C17
 namespace Fatchoy.C17
 
 variable {μ : Type} [DecidableEq μ]
 
-/-- the regenerated constants satisfy the side-conditions (in particular: RemoveNode is guarded) -/
+/-- the regenerated constants satisfy the side-conditions (in particular: RemoveNode is guarded and gives
+  points back) -/
 theorem C17_valid : Valid params := by decide
+
+/-- …so the configuration the driver runs against the real code exists and meets the hypotheses of the
+  theorems below: guard, give-back loop, a visiting order that enumerates the members (`sort.Strings`),
+  and at least one replica point per member -/
+theorem C17_concrete : ∃ K, concreteCfg? params = some K ∧ K.guarded = true ∧ K.restores = true ∧ OrdOK K ∧
+    ∀ a, K.pts a ≠ [] :=
+  concreteCfg_valid params C17_valid
 
 /-- `search` on the sorted point list returns the least index whose point is above the hash, or 0 when
   no point is above it (wrap-around) — and never an index outside the list unless the list is empty -/
@@ -22,18 +33,18 @@ theorem C17_search_spec (a : List Nat) (h : Nat) (hs : a.Pairwise (· ≤ ·)) :
   search_sorted a h hs
 
 /-- after every history the point list that `search` runs on is sorted and holds exactly the keys of the map -/
-theorem C17_sorted (g : Bool) (pts : μ → List Nat) (ops : List (Op μ)) :
-    (run g pts ops).sorted.Pairwise (· ≤ ·) ∧ ∀ q, q ∈ (run g pts ops).sorted ↔ q ∈ keys (run g pts ops).circle := by
-  have hr := wf_run g pts ops
+theorem C17_sorted (K : Cfg μ) (hord : OrdOK K) (ops : List (Op μ)) :
+    (run K ops).sorted.Pairwise (· ≤ ·) ∧ ∀ q, q ∈ (run K ops).sorted ↔ q ∈ keys (run K ops).circle := by
+  have hr := wf_run K hord ops
   exact ⟨by rw [hr.sorted_eq]; exact sorted_sortPoints _, mem_sorted_iff hr⟩
 
 /-- a lookup on a ring with at least one point returns a current member (and it is the owner of the
   cyclic successor of the hash); on a ring without points `GetNodeBy` panics -/
-theorem C17_member (g : Bool) (pts : μ → List Nat) (ops : List (Op μ)) (h : Nat) :
-    ((run g pts ops).circle = [] → lookup (run g pts ops) h = .panic) ∧
-    ((run g pts ops).circle ≠ [] → ∃ p m, IsSucc (keys (run g pts ops).circle) h p ∧
-        find (run g pts ops).circle p = some m ∧ lookup (run g pts ops) h = .node m ∧ m ∈ (run g pts ops).nodes) := by
-  have hr := wf_run g pts ops
+theorem C17_member (K : Cfg μ) (hord : OrdOK K) (ops : List (Op μ)) (h : Nat) :
+    ((run K ops).circle = [] → lookup (run K ops) h = .panic) ∧
+    ((run K ops).circle ≠ [] → ∃ p m, IsSucc (keys (run K ops).circle) h p ∧
+        find (run K ops).circle p = some m ∧ lookup (run K ops) h = .node m ∧ m ∈ (run K ops).nodes) := by
+  have hr := wf_run K hord ops
   constructor
   · intro he
     exact lookup_empty hr ((keys_eq_nil_iff _).mpr he) h
@@ -41,119 +52,122 @@ theorem C17_member (g : Bool) (pts : μ → List Nat) (ops : List (Op μ)) (h : 
     obtain ⟨p, m, hp, hm, hl⟩ := lookup_total hr (fun hk => hne ((keys_eq_nil_iff _).mp hk)) h
     exact ⟨p, m, hp, hm, hl, hr.owner_mem p m hm⟩
 
-/-- if replica points never collide, a ring with at least one member has a point: every lookup returns
-  a current member. (With collisions a member can lose all its points to others: `C17_member` is then
-  the statement that holds.) -/
-theorem C17_member_of_members (g : Bool) (pts : μ → List Nat) (hnc : NoCollision pts) (ops : List (Op μ)) (h : Nat)
-    (hne : (run g pts ops).nodes ≠ []) :
-    ∃ m, lookup (run g pts ops) h = .node m ∧ m ∈ (run g pts ops).nodes := by
+/-- with the give-back loop every replica point of every current member is on the ring after every history
+  (owned by it or, through a collision, by another current member) -/
+theorem C17_covered (K : Cfg μ) (hrs : K.restores = true) (hord : OrdOK K) (ops : List (Op μ)) :
+    ∀ m ∈ (run K ops).nodes, ∀ p ∈ K.pts m, ∃ x ∈ (run K ops).nodes, find (run K ops).circle p = some x := by
+  intro m hm p hp
+  obtain ⟨x, hx⟩ := (mem_keys_iff _ p).mp (covered_run K hrs hord ops m hm p hp)
+  exact ⟨x, (wf_run K hord ops).owner_mem p x hx, hx⟩
+
+/-- a lookup on a ring with at least one MEMBER returns a current member — for an arbitrary hash, whatever
+  collides: a non-empty membership always has a point (needs the give-back loop of RemoveNode; every member
+  has at least one replica) -/
+theorem C17_member_of_members (K : Cfg μ) (hrs : K.restores = true) (hord : OrdOK K) (hpts : ∀ a, K.pts a ≠ [])
+    (ops : List (Op μ)) (h : Nat) (hne : (run K ops).nodes ≠ []) :
+    ∃ m, lookup (run K ops) h = .node m ∧ m ∈ (run K ops).nodes := by
   obtain ⟨a, ha⟩ := List.exists_mem_of_ne_nil _ hne
-  obtain ⟨p, hp⟩ := List.exists_mem_of_ne_nil _ (hnc.2 a)
-  have hf := owns_all_run g pts hnc ops a ha p hp
-  have hc : (run g pts ops).circle ≠ [] := by
+  obtain ⟨p, hp⟩ := List.exists_mem_of_ne_nil _ (hpts a)
+  obtain ⟨x, _, hf⟩ := C17_covered K hrs hord ops a ha p hp
+  have hc : (run K ops).circle ≠ [] := by
     intro he
     rw [he] at hf
     simp [find] at hf
-  obtain ⟨_, m, _, _, hl, hm⟩ := (C17_member g pts ops h).2 hc
+  obtain ⟨_, m, _, _, hl, hm⟩ := (C17_member K hord ops h).2 hc
   exact ⟨m, hl, hm⟩
 
 /-- the answer is a function of the map from points to owners alone: two histories that end in the same
   map answer every lookup alike — no dependence on map iteration order, on the order of insertion or on
   anything else that is not the membership history -/
-theorem C17_stable (g : Bool) (pts : μ → List Nat) (ops ops' : List (Op μ))
-    (hsame : ∀ p, find (run g pts ops).circle p = find (run g pts ops').circle p) (h : Nat) :
-    lookup (run g pts ops) h = lookup (run g pts ops') h :=
-  lookup_congr (wf_run g pts ops) (wf_run g pts ops') hsame h
+theorem C17_stable (K : Cfg μ) (hord : OrdOK K) (ops ops' : List (Op μ))
+    (hsame : ∀ p, find (run K ops).circle p = find (run K ops').circle p) (h : Nat) :
+    lookup (run K ops) h = lookup (run K ops') h :=
+  lookup_congr (wf_run K hord ops) (wf_run K hord ops') hsame h
 
 /-- removing something that is not a member changes no lookup -/
-theorem C17_stable_remove_absent (P : Params) (hv : Valid P) (pts : μ → List Nat) (ops : List (Op μ)) (m : μ)
-    (hm : m ∉ (run P.guarded pts ops).nodes) (h : Nat) :
-    lookup (removeNode P.guarded pts (run P.guarded pts ops) m) h = lookup (run P.guarded pts ops) h := by
-  rw [hv.1] at hm ⊢
-  have hr := wf_run true pts ops
-  apply lookup_congr (wf_removeNode true pts _ m hr) hr
+theorem C17_stable_remove_absent (K : Cfg μ) (hg : K.guarded = true) (hrs : K.restores = true) (hord : OrdOK K)
+    (ops : List (Op μ)) (m : μ) (hm : m ∉ (run K ops).nodes) (h : Nat) :
+    lookup (removeNode K (run K ops) m) h = lookup (run K ops) h := by
+  have hr := wf_run K hord ops
+  have hc := covered_run K hrs hord ops
+  apply lookup_congr (wf_removeNode K hord _ m hr) hr
   intro p
-  rw [find_removeNode]
-  by_cases hp : p ∈ pts m ∧ find (run true pts ops).circle p = some m
-  · exact absurd (hr.owner_mem p m hp.2) hm
-  · simp only [hp, if_false]
+  cases hf : find (run K ops).circle p with
+  | some x =>
+    have hxm : x ≠ m := fun hx => hm (hx ▸ hr.owner_mem p x hf)
+    exact removeNode_keep hg _ m p x hf hxm
+  | none =>
+    cases hf' : find (removeNode K (run K ops) m).circle p with
+    | none => rfl
+    | some x =>
+      exfalso
+      have := keys_removeNode_sub hord hr hc m p ((mem_keys_iff _ p).mpr ⟨x, hf'⟩)
+      obtain ⟨y, hy⟩ := (mem_keys_iff _ p).mp this
+      rw [hf] at hy; cases hy
 
 /-- adding a member again that still owns all its points changes no lookup -/
-theorem C17_stable_readd (g : Bool) (pts : μ → List Nat) (ops : List (Op μ)) (m : μ)
-    (hown : ∀ p ∈ pts m, find (run g pts ops).circle p = some m) (h : Nat) :
-    lookup (addNode pts (run g pts ops) m) h = lookup (run g pts ops) h := by
-  have hr := wf_run g pts ops
-  apply lookup_congr (wf_addNode pts _ m hr) hr
+theorem C17_stable_readd (K : Cfg μ) (hord : OrdOK K) (ops : List (Op μ)) (m : μ)
+    (hown : ∀ p ∈ K.pts m, find (run K ops).circle p = some m) (h : Nat) :
+    lookup (addNode K.pts (run K ops) m) h = lookup (run K ops) h := by
+  have hr := wf_run K hord ops
+  apply lookup_congr (wf_addNode K _ m hr) hr
   intro p
   rw [find_addNode]
-  by_cases hp : p ∈ pts m
+  by_cases hp : p ∈ K.pts m
   · simp only [hp, if_true]; exact (hown p hp).symm
   · simp only [hp, if_false]
 
 /-- adding a member: every key keeps its member or moves to the added member -/
-theorem C17_add_minimal (g : Bool) (pts : μ → List Nat) (ops : List (Op μ)) (m y : μ) (h : Nat)
-    (hy : lookup (run g pts ops) h = .node y) :
-    lookup (addNode pts (run g pts ops) m) h = .node y ∨ lookup (addNode pts (run g pts ops) m) h = .node m := by
-  have hr := wf_run g pts ops
-  have hr' := wf_addNode pts _ m hr
+theorem C17_add_minimal (K : Cfg μ) (hord : OrdOK K) (ops : List (Op μ)) (m y : μ) (h : Nat)
+    (hy : lookup (run K ops) h = .node y) :
+    lookup (addNode K.pts (run K ops) m) h = .node y ∨ lookup (addNode K.pts (run K ops) m) h = .node m := by
+  have hr := wf_run K hord ops
+  have hr' := wf_addNode K _ m hr
   obtain ⟨p, hp, hpy⟩ := succ_of_lookup hr hy
-  have hsub : ∀ q, q ∈ keys (run g pts ops).circle → q ∈ keys (addNode pts (run g pts ops) m).circle := by
+  have hsub : ∀ q, q ∈ keys (run K ops).circle → q ∈ keys (addNode K.pts (run K ops) m).circle := by
     intro q hq
     obtain ⟨x, hx⟩ := (mem_keys_iff _ q).mp hq
     apply (mem_keys_iff _ q).mpr
     rw [find_addNode]
-    by_cases hqm : q ∈ pts m
+    by_cases hqm : q ∈ K.pts m
     · exact ⟨m, by simp [hqm]⟩
     · exact ⟨x, by simp [hqm, hx]⟩
-  have hne : keys (addNode pts (run g pts ops) m).circle ≠ [] := List.ne_nil_of_mem (hsub p hp.1)
+  have hne : keys (addNode K.pts (run K ops) m).circle ≠ [] := List.ne_nil_of_mem (hsub p hp.1)
   obtain ⟨p', x, hp', hx, hl⟩ := lookup_total hr' hne h
   rw [hl]
   rw [find_addNode] at hx
-  by_cases hpm : p' ∈ pts m
+  by_cases hpm : p' ∈ K.pts m
   · simp only [hpm, if_true, Option.some.injEq] at hx
     subst hx; exact Or.inr rfl
   · simp only [hpm, if_false] at hx
-    have hmem : p' ∈ keys (run g pts ops).circle := (mem_keys_iff _ p').mpr ⟨x, hx⟩
+    have hmem : p' ∈ keys (run K ops).circle := (mem_keys_iff _ p').mpr ⟨x, hx⟩
     have := (hp'.mono hsub hmem).unique hp
     subst this
     rw [hx] at hpy
     cases hpy
     exact Or.inl rfl
 
-/-- removing a member: a key that was not mapped to the removed member keeps its member -/
-theorem C17_remove_minimal (P : Params) (hv : Valid P) (pts : μ → List Nat) (ops : List (Op μ)) (m y : μ) (h : Nat)
-    (hy : lookup (run P.guarded pts ops) h = .node y) (hne : y ≠ m) :
-    lookup (removeNode P.guarded pts (run P.guarded pts ops) m) h = .node y := by
-  rw [hv.1] at hy ⊢
-  have hr := wf_run true pts ops
-  have hr' := wf_removeNode true pts _ m hr
+/-- removing a member: a key that was not mapped to the removed member keeps its member (the points given
+  back to the remaining members are points the removed member held, so they take no key from anybody else) -/
+theorem C17_remove_minimal (K : Cfg μ) (hg : K.guarded = true) (hrs : K.restores = true) (hord : OrdOK K)
+    (ops : List (Op μ)) (m y : μ) (h : Nat)
+    (hy : lookup (run K ops) h = .node y) (hne : y ≠ m) :
+    lookup (removeNode K (run K ops) m) h = .node y := by
+  have hr := wf_run K hord ops
+  have hc := covered_run K hrs hord ops
+  have hr' := wf_removeNode K hord _ m hr
   obtain ⟨p, hp, hpy⟩ := succ_of_lookup hr hy
-  have hkeep : find (removeNode true pts (run true pts ops) m).circle p = some y := by
-    rw [find_removeNode]
-    have : ¬ (p ∈ pts m ∧ find (run true pts ops).circle p = some m) := by
-      rintro ⟨_, h2⟩
-      rw [hpy] at h2
-      exact hne (Option.some.inj h2)
-    simp only [this, if_false]; exact hpy
-  have hsub : ∀ q, q ∈ keys (removeNode true pts (run true pts ops) m).circle → q ∈ keys (run true pts ops).circle := by
-    intro q hq
-    obtain ⟨x, hx⟩ := (mem_keys_iff _ q).mp hq
-    apply (mem_keys_iff _ q).mpr
-    rw [find_removeNode] at hx
-    by_cases hc : q ∈ pts m ∧ find (run true pts ops).circle q = some m
-    · simp [hc] at hx
-    · simp only [hc, if_false] at hx; exact ⟨x, hx⟩
-  exact lookup_of_succ hr' (hp.mono hsub ((mem_keys_iff _ p).mpr ⟨y, hkeep⟩)) hkeep
+  have hkeep := removeNode_keep hg (run K ops) m p y hpy hne
+  exact lookup_of_succ hr' (hp.mono (keys_removeNode_sub hord hr hc m) ((mem_keys_iff _ p).mpr ⟨y, hkeep⟩)) hkeep
 
 /-- …and the member that was removed is no longer returned by any lookup -/
-theorem C17_remove_gone (g : Bool) (pts : μ → List Nat) (ops : List (Op μ)) (m : μ) (h : Nat) :
-    lookup (removeNode g pts (run g pts ops) m) h ≠ .node m := by
+theorem C17_remove_gone (K : Cfg μ) (hord : OrdOK K) (ops : List (Op μ)) (m : μ) (h : Nat) :
+    lookup (removeNode K (run K ops) m) h ≠ .node m := by
   intro hl
-  have hr' := wf_removeNode g pts _ m (wf_run g pts ops)
+  have hr' := wf_removeNode K hord _ m (wf_run K hord ops)
   obtain ⟨p, _, hpm⟩ := succ_of_lookup hr' hl
   have hmem := hr'.owner_mem p m hpm
-  have hn : (removeNode g pts (run g pts ops) m).nodes = (run g pts ops).nodes.filter (· ≠ m) := rfl
-  rw [hn] at hmem
+  rw [removeNode_nodes] at hmem
   simpa using (List.mem_filter.mp hmem).2
 
 /-! ### non-vacuity (tests on a sample, by evaluation): a hash with a collision — members 1 and 2 share point 50.
@@ -165,44 +179,56 @@ private def samplePts : Nat → List Nat
   | 3 => [30, 70]
   | _ => []
 
+/-- guard and give-back loop as in the repaired code; members visited in list order -/
+private def sampleCfg (g rs : Bool) : Cfg Nat := { guarded := g, restores := rs, pts := samplePts, ord := id }
+
 /-- the history add 1, add 3, add 2 (2 takes point 50 over from 1); key hash 40 is served by point 50 -/
-example : lookup (run true samplePts [.add 1, .add 3, .add 2]) 40 = .node 2 := by
-  rw [show run true samplePts [.add 1, .add 3, .add 2] =
+example : lookup (run (sampleCfg true true) [.add 1, .add 3, .add 2]) 40 = .node 2 := by
+  rw [show run (sampleCfg true true) [.add 1, .add 3, .add 2] =
     ⟨[(90, 2), (50, 2), (70, 3), (30, 3), (10, 1)], [2, 3, 1], [10, 30, 50, 70, 90]⟩ from rfl]
   simp [lookup, search, searchLoop] <;> simp [find]
 /-- `C17_remove_minimal` applies to it: removing member 1 leaves the key with member 2 -/
-example : lookup (removeNode params.guarded samplePts (run params.guarded samplePts [.add 1, .add 3, .add 2]) 1) 40 = .node 2 := by
-  refine C17_remove_minimal params C17_valid samplePts _ 1 2 40 ?_ (by decide)
-  rw [show run params.guarded samplePts [.add 1, .add 3, .add 2] =
+example : lookup (removeNode (sampleCfg true true) (run (sampleCfg true true) [.add 1, .add 3, .add 2]) 1) 40 = .node 2 := by
+  refine C17_remove_minimal (sampleCfg true true) rfl rfl (fun _ _ => Iff.rfl) _ 1 2 40 ?_ (by decide)
+  rw [show run (sampleCfg true true) [.add 1, .add 3, .add 2] =
     ⟨[(90, 2), (50, 2), (70, 3), (30, 3), (10, 1)], [2, 3, 1], [10, 30, 50, 70, 90]⟩ from rfl]
   simp [lookup, search, searchLoop] <;> simp [find]
-/-- the unguarded RemoveNode (the code before the repair) moves that key to member 3: the guard is needed -/
-example : lookup (removeNode false samplePts (run false samplePts [.add 1, .add 3, .add 2]) 1) 40 = .node 3 := by
-  rw [show removeNode false samplePts (run false samplePts [.add 1, .add 3, .add 2]) 1 =
+/-- the unguarded RemoveNode (the code before the first repair) moves that key to member 3: the guard is needed -/
+example : lookup (removeNode (sampleCfg false false) (run (sampleCfg false false) [.add 1, .add 3, .add 2]) 1) 40 = .node 3 := by
+  rw [show removeNode (sampleCfg false false) (run (sampleCfg false false) [.add 1, .add 3, .add 2]) 1 =
     ⟨[(90, 2), (70, 3), (30, 3)], [2, 3], [30, 70, 90]⟩ from rfl]
   simp [lookup, search, searchLoop] <;> simp [find]
+/-- the give-back loop: removing member 2 instead returns point 50 to member 1, and the key with it -/
+example : lookup (removeNode (sampleCfg true true) (run (sampleCfg true true) [.add 1, .add 3, .add 2]) 2) 40 = .node 1 := by
+  rw [show removeNode (sampleCfg true true) (run (sampleCfg true true) [.add 1, .add 3, .add 2]) 2 =
+    ⟨[(50, 1), (70, 3), (30, 3), (10, 1)], [3, 1], [10, 30, 50, 70]⟩ from rfl]
+  simp [lookup, search, searchLoop] <;> simp [find]
 /-- `C17_add_minimal` with a key that moves (hash 40: member 1 → member 2) and one that stays (hash 20) -/
-example : lookup (run true samplePts [.add 1, .add 3]) 40 = .node 1 ∧
-    lookup (addNode samplePts (run true samplePts [.add 1, .add 3]) 2) 40 = .node 2 ∧
-    lookup (addNode samplePts (run true samplePts [.add 1, .add 3]) 2) 20 = .node 3 := by
-  rw [show addNode samplePts (run true samplePts [.add 1, .add 3]) 2 =
+example : lookup (run (sampleCfg true true) [.add 1, .add 3]) 40 = .node 1 ∧
+    lookup (addNode samplePts (run (sampleCfg true true) [.add 1, .add 3]) 2) 40 = .node 2 ∧
+    lookup (addNode samplePts (run (sampleCfg true true) [.add 1, .add 3]) 2) 20 = .node 3 := by
+  rw [show addNode samplePts (run (sampleCfg true true) [.add 1, .add 3]) 2 =
     ⟨[(90, 2), (50, 2), (70, 3), (30, 3), (10, 1)], [2, 3, 1], [10, 30, 50, 70, 90]⟩ from rfl,
-    show run true samplePts [.add 1, .add 3] = ⟨[(70, 3), (30, 3), (50, 1), (10, 1)], [3, 1], [10, 30, 50, 70]⟩ from rfl]
+    show run (sampleCfg true true) [.add 1, .add 3] = ⟨[(70, 3), (30, 3), (50, 1), (10, 1)], [3, 1], [10, 30, 50, 70]⟩ from rfl]
   simp [lookup, search, searchLoop] <;> simp [find]
 /-- wrap-around: hash 95 is above every point and is served by the least point -/
-example : lookup (run true samplePts [.add 1, .add 3, .add 2]) 95 = .node 1 := by
-  rw [show run true samplePts [.add 1, .add 3, .add 2] =
+example : lookup (run (sampleCfg true true) [.add 1, .add 3, .add 2]) 95 = .node 1 := by
+  rw [show run (sampleCfg true true) [.add 1, .add 3, .add 2] =
     ⟨[(90, 2), (50, 2), (70, 3), (30, 3), (10, 1)], [2, 3, 1], [10, 30, 50, 70, 90]⟩ from rfl]
   simp [lookup, search, searchLoop] <;> simp [find]
-/-- a member can lose all its points: with identical points for everybody, add 4, add 5, remove 5 leaves a
-  ring that has a member but no point (why `C17_member` speaks of points and `C17_member_of_members`
-  needs `NoCollision`) -/
-example : (run true (fun _ : Nat => [7]) [.add 4, .add 5, .remove 5]).nodes = [4] ∧
-    lookup (run true (fun _ : Nat => [7]) [.add 4, .add 5, .remove 5]) 0 = .panic := by
-  rw [show run true (fun _ : Nat => [7]) [.add 4, .add 5, .remove 5] = ⟨[], [4], []⟩ from rfl]
+/-- twins (everybody has the same single point): WITHOUT the give-back loop add 4, add 5, remove 5 leaves a
+  ring that has a member but no point, and the lookup panics — the defect `C17_member_of_members` excludes -/
+example : (run ⟨true, false, fun _ : Nat => [7], id⟩ [.add 4, .add 5, .remove 5]).nodes = [4] ∧
+    lookup (run ⟨true, false, fun _ : Nat => [7], id⟩ [.add 4, .add 5, .remove 5]) 0 = .panic := by
+  rw [show run ⟨true, false, fun _ : Nat => [7], id⟩ [.add 4, .add 5, .remove 5] = ⟨[], [4], []⟩ from rfl]
   simp [lookup, search, searchLoop]
-/-- `NoCollision` is satisfiable -/
-example : NoCollision (fun m : Nat => [m]) :=
-  ⟨fun a b hab p hp hq => hab ((List.mem_singleton.mp hp).symm.trans (List.mem_singleton.mp hq)), fun a => by simp⟩
+/-- …WITH it member 4 gets the point back: `C17_member_of_members` applies (hypotheses satisfiable) -/
+example : lookup (run ⟨true, true, fun _ : Nat => [7], id⟩ [.add 4, .add 5, .remove 5]) 0 = .node 4 := by
+  obtain ⟨m, hl, hm⟩ := C17_member_of_members ⟨true, true, fun _ : Nat => [7], id⟩ rfl (fun _ _ => Iff.rfl)
+    (fun _ => by simp) [.add 4, .add 5, .remove 5] 0
+    (by rw [show run ⟨true, true, fun _ : Nat => [7], id⟩ [.add 4, .add 5, .remove 5] = ⟨[(7, 4)], [4], [7]⟩ from rfl]; simp)
+  rw [show run ⟨true, true, fun _ : Nat => [7], id⟩ [.add 4, .add 5, .remove 5] = ⟨[(7, 4)], [4], [7]⟩ from rfl] at hl hm ⊢
+  have : m = 4 := by simpa using hm
+  rw [hl, this]
 
 end Fatchoy.C17
